@@ -118,7 +118,7 @@ def _worker(args):
     cid, seed, tier, indices = args
     faulthandler.dump_traceback_later(3600, exit=True)
     res = []
-    for i in indices:
+    for pos, i in enumerate(indices):
         try:
             out = _exec_one(cid, seed, tier, i)
             # keep the payload small: plans only for violations and samples
@@ -132,6 +132,8 @@ def _worker(args):
                     "digest": out.get("digest", ""),
                     "plan": out["plan"] if keep_plan else None,
                     "shape": out.get("shape"),
+                    # what this worker call executed before (matters only if a result depends on history)
+                    "prefix": list(indices[:pos]) if out.get("violations") else None,
                 }
             )
         except PlanTimeout:
@@ -147,6 +149,12 @@ def replay_file(path, quiet=False):
     with open(path) as fh:
         rep = json.load(fh)
     cid = rep["property"]
+    for i in rep.get("prefix_indices") or []:
+        # history of the worker that found it (only kept when the single plan did not reproduce)
+        try:
+            _exec_one(cid, rep.get("seed", 0), rep.get("tier", "quick"), int(i))
+        except Exception:  # noqa: BLE001
+            pass
     out = _exec_one(cid, rep.get("seed", 0), rep.get("tier", "quick"), rep.get("run_index", -1), plan=rep["plan"])
     clauses = sorted({v["clause"] for v in out.get("violations", [])})
     same_clause = rep["clause"] in clauses
@@ -181,6 +189,7 @@ def run_check(cid, tier, seed, n_override=None, wall_override=None, workers=None
     keys = set()
     samples = []
     raw_viol = []  # (index, plan, violation)
+    prefixes = {}
     harness_errors = []
     done = 0
     digest_all = hashlib.sha256()
@@ -236,6 +245,7 @@ def run_check(cid, tier, seed, n_override=None, wall_override=None, workers=None
                         samples.append({"run_index": r["index"], "plan": r["plan"], "shape": r.get("shape")})
                     for v in r["violations"]:
                         raw_viol.append((r["index"], r["plan"], v))
+                        prefixes[r["index"]] = r.get("prefix") or []
             submit_more()
         if next(it, None) is not None:
             stopped_early = True
@@ -310,16 +320,36 @@ def run_check(cid, tier, seed, n_override=None, wall_override=None, workers=None
             with open(path, "w") as fh:
                 fh.write(jdump(rep))
             # replay in a fresh process: must reproduce clause and digest
-            pr = subprocess.run(
-                [sys.executable, os.path.join(VERIF, "dsim_main.py"), cid, "--replay", path, "--quiet"],
-                capture_output=True,
-                text=True,
-                timeout=600,
-                env=os.environ.copy(),
-            )
-            if pr.returncode == 1:
+            def fresh_replay():
+                return subprocess.run(
+                    [sys.executable, os.path.join(VERIF, "dsim_main.py"), cid, "--replay", path, "--quiet"],
+                    capture_output=True,
+                    text=True,
+                    timeout=1200,
+                    env=os.environ.copy(),
+                )
+
+            pr = fresh_replay()
+            note = ""
+            if pr.returncode != 1:
+                # the minimisation ran inside this long-lived process: if the violation depends on
+                # what the process executed before, fall back to the unminimised plan, then to the
+                # plan preceded by what its worker had executed (in a fresh process each time)
+                for mode in ("original", "with_history"):
+                    rep2 = dict(rep, plan=plan, minimised=False)
+                    if mode == "with_history":
+                        rep2["prefix_indices"] = prefixes.get(idx, [])
+                    with open(path, "w") as fh:
+                        fh.write(jdump(rep2))
+                    pr = fresh_replay()
+                    if pr.returncode in (1, 3):
+                        note = " (unminimised%s; the outcome depends on what ran before in the process)" % (
+                            ", replayed after run indices %s" % rep2["prefix_indices"] if mode == "with_history" else ""
+                        )
+                        break
+            if pr.returncode == 1 or (note and pr.returncode == 3):
                 lines.append("VIOLATION property=%s replay=%s" % (cid, path))
-                lines.append("  clause=%s run_index=%d witness=%s" % (clause, idx, jdump(rep["witness"])[:800]))
+                lines.append("  clause=%s run_index=%d%s witness=%s" % (clause, idx, note, jdump(rep["witness"])[:800]))
                 reported.append({"clause": clause, "replay": path, "run_index": idx})
                 exit_code = 1
             else:
